@@ -155,7 +155,7 @@ fn is_edit_acted_on(spec: &ShapeSpec) -> bool {
         })
 }
 
-fn o_parse(c: &ParseCase, st: &mut Stats) -> Result<(), String> {
+pub fn o_parse(c: &ParseCase, st: &mut Stats) -> Result<(), String> {
     if !c.tuple.in_domain() {
         return Err("bad replay case: tuple outside the domain".into());
     }
@@ -264,7 +264,7 @@ fn sanitize(mut p: Program) -> Program {
     p
 }
 
-fn o_build(c: &BuildCase, st: &mut Stats) -> Result<(), String> {
+pub fn o_build(c: &BuildCase, st: &mut Stats) -> Result<(), String> {
     let program = sanitize(c.program.clone());
     use_spec(&c.spec);
     let (out, built) = run::<IShape>(&program);
